@@ -6,7 +6,8 @@ fold likewise; `Located::span` of nested access paths via join2), the peg-genera
 hand-written overrides that take part in those traversals.  Every other cycle in the workspace call graph is recursion over
 something else (a graph, a retry) and needs an argument; none exists today.  The rule computes the strongly connected
 components of the resolved call graph over product functions and reports every cycle that is not one of the families."""
-from vlib.mir import norm, loc_macro
+import re
+from vlib.mir import norm, loc_macro, loc_str
 from vlib import facts as F
 
 
@@ -98,3 +99,121 @@ def run(ctx, rep, rid="R-C04-recursion"):
                           "takes part in a recursion (cycle of %d functions) that is not a syntax-tree traversal: its depth is not bounded by the nesting of the input "
                           "(a walk over a graph of declarations can recurse without end)" % len(comp))
     r.note("%d recursive components" % n)
+
+
+def run_fanout(ctx, rep, rid="R-C04-fanout"):
+    """Cost of a recursion = product of the fan-outs.  A function on a recursion cycle that makes the recursive call twice *on the
+    same value* (same receiver / same argument root) does all the work below that value twice, and again twice one level down:
+    2^depth.  (Two calls on different children - left and right operand - are ordinary tree recursion.)  The rule looks at every
+    hand-written member of a recursive component (derive- and peg-generated bodies call each child once by construction)."""
+    from vlib.mir import op_place
+    r = rep.rule(rid, "no hand-written function on a recursion cycle repeats a recursive call on the same value (that doubles the work per level of "
+                      "nesting): per function and callee of the cycle, the argument roots of the calls are pairwise different", floor=5,
+                 floor_what="recursive calls in hand-written cycle members")
+    nodes = [fid for fid, b in ctx.prog.bodies.items() if b.f["crate"] in F.PRODUCT and "::test" not in norm(fid)]
+    ns = set(nodes)
+    succ = {}
+    for fid in nodes:
+        b = ctx.prog.bodies[fid]
+        succ[fid] = sorted({t.id for t, name, site in ctx.prog.callees_of(b) if t is not None and t.id in ns})
+    n = 0
+    for comp in sccs(nodes, succ):
+        if len(comp) == 1 and comp[0] not in succ.get(comp[0], ()):
+            continue
+        cs = set(comp)
+        for fid in sorted(comp):
+            b = ctx.prog.bodies[fid]
+            fam = family(ctx, fid)
+            if fam in ("peg", "logos", "derive") or b.f.get("exp"):
+                continue
+            m = None
+            # derive(Recurse) output is generated: skip bodies whose every call site is inside that expansion
+            groups = {}
+            for c in b.calls():
+                tg = [t for t in (ctx.prog.get(c.callee) if c.callee else [])]
+                if c.rk in ("virtual", "unresolved"):
+                    tg += list(ctx.prog.impls.get(c.u, []))
+                if not any(t.id in cs for t in tg):
+                    continue
+                mm = loc_macro(c.loc)
+                if mm and str(mm[0]).startswith("Derive:"):
+                    continue
+                n += 1
+                roots = []
+                for a in c.args:
+                    p = op_place(a)
+                    rt = b.root(p) if p is not None else None
+                    roots.append((rt[0], tuple(x[2] if isinstance(x, list) and x[0] == "f" else str(x) for x in rt[1])) if rt else ("const", str(a[2])[:30]))
+                key = ((c.u or c.callee), tuple(roots) if roots else None)
+                groups.setdefault(key, []).append(c)
+            for (callee, root), cl in sorted(groups.items(), key=str):
+                inst = "%s|%s" % (norm(fid), (callee or "?").split("::")[-1])
+                if root is not None and len(cl) > 1:
+                    # only a problem when both calls can happen in one invocation: neither dominates... any two on one path
+                    dom = b.dominators()
+                    both = any(a.bb in dom.get(z.bb, set()) or z.bb in dom.get(a.bb, set()) or a.bb == z.bb for i, a in enumerate(cl) for z in cl[i + 1:])
+                    if both:
+                        r.finding(inst + "|called %dx on the same value" % len(cl), "%s:%d" % (b.f["file"], cl[0].loc[0]),
+                                  "%s() is part of a recursion and is called %d times on the same argument (lines %s): the work doubles with every level "
+                                  "of nesting (exponential time on a chain of selectors / operators)" % ((callee or "?").split("::")[-1], len(cl), ", ".join(str(c.loc[0]) for c in cl)))
+                        continue
+                r.ok(inst + ("#%s" % ("/".join(str(x[1][-1]) if isinstance(x[1], tuple) and x[1] else str(x[0]) for x in root) if root else "")), "%s:%d" % (b.f["file"], cl[0].loc[0]))
+    r.note("%d recursive calls in hand-written members of recursive components" % n)
+
+
+def run_depth(ctx, rep, rid="R-C04-depth"):
+    """The recursion inventory calls a syntax-tree traversal bounded when the tree's depth is bounded by the nesting of the source.
+    Two constructs of the parser turn a *flat repetition* into *nesting* instead: the infix levels of `precedence!{}` (one node per
+    operator, left-deep) and action loops that wrap the value built so far into a Box on every iteration (`a.b.c[..]`).  For those
+    the depth of the tree - and of every recursive traversal, fold and renderer over it - is the length of one expression, which
+    only the input size bounds."""
+    from vlib.mir import op_place
+    from rules.c04_progress import natural_loops
+    r = rep.rule(rid, "the depth of the syntax tree is bounded by source nesting: no grammar construct turns a flat repetition into nesting "
+                      "(precedence! infix levels, action loops boxing the value built so far)", floor=2, floor_what="depth generators examined")
+    g = ctx.peg
+    # (a) precedence! blocks
+    def walk(rule, expr):
+        for sq in expr.alts:
+            for e in sq.elems:
+                for pr in (e.prim, e.sep):
+                    if pr is None:
+                        continue
+                    if pr.kind == "prec":
+                        infix = 0
+                        for lvl in pr.levels:
+                            for alt in lvl:
+                                ats = [x for x in alt.elems if x.prim.kind == "at"]
+                                if len(ats) >= 2:
+                                    infix += 1
+                        if infix:
+                            r.finding("rule %s|precedence! infix x%d|depth = operators in a chain" % (rule.name, infix), "parser/src/parser.rs:%d" % rule.line,
+                                      "every infix operator of a flat chain `a + a + a ..` adds one level to the expression tree: all recursive traversals "
+                                      "(file-id fold, rules, renderer) descend once per operator; a 500-term sum (2 KB) overflows the 8 MB stack of the debug "
+                                      "build in check and echo (abort, exit 134)")
+                        else:
+                            r.ok("rule %s|precedence! without infix levels" % rule.name, "parser/src/parser.rs:%d" % rule.line)
+                    elif pr.kind == "group":
+                        walk(rule, pr.expr)
+    for name, rule in sorted(g.rules.items()):
+        walk(rule, rule.expr)
+    # (b) action loops that box the accumulated value
+    for b in sorted(ctx.prog.bodies.values(), key=lambda x: x.id):
+        if b.f["crate"] != "ironplc_parser" or "::plc_parser::" not in norm(b.id):
+            continue
+        for h, body in sorted(natural_loops(b).items()):
+            boxed = {}
+            for x in body:
+                if b.term(x)[0] == "call":
+                    c = b.call_at(x)
+                    if (c.callee or "").endswith("Box::<T>::new") or (c.callee or "").endswith("boxed::Box::new"):
+                        p = op_place(c.args[0]) if c.args else None
+                        if p is not None:
+                            boxed[b.root(p)[0]] = c
+            for l, c in sorted(boxed.items()):
+                written = any(s[0] == "=" and s[1] == [l, []] for x in body for s in b.bbs[x]["s"])
+                if written and b.local_name(l):
+                    m = re.search(r"__parse_([A-Za-z0-9_]+)", norm(b.id))
+                    r.finding("rule %s|loop boxes `%s`|depth = repetitions" % (m.group(1) if m else norm(b.id), b.local_name(l)), loc_str(b.f, c.loc),
+                              "each element of the repetition wraps the value built so far in a Box: `x.a.a.a ..` nests once per selector; 3000 selectors (6 KB) "
+                              "overflow the stack of the debug build in check (abort, exit 134)")
